@@ -91,6 +91,10 @@ class SCache(Sym):
     def sym_contains(self, ex, k):
         return SBool(self.dom[k.e])
 
+    def sym_truth(self, ex):
+        x = z3.Const("ne_x", Id)
+        return z3.Exists([x], self.dom[x])
+
 
 class SCount(Sym):
     """len() of a filtered id collection {x : P(x)}: compared with small constants only; "at least k" is stated with k distinct witnesses"""
@@ -468,6 +472,12 @@ class SDoc(Sym):
 
     def sym_truth(self, ex):
         raise Unsupported("truthiness of a document handle")
+
+    def sym_setattr(self, ex, name, v):
+        if name == "filename":
+            self.filename = v
+            return
+        raise Unsupported(f"document.{name} = ...")
 
     def sym_getattr(self, ex, name):
         if name in ("filename", "_filename"):
